@@ -500,13 +500,19 @@ def gen_node_cases(rng, n, restarts):
         nk = rng.randrange(30, 46)
         keys = gen_keys(rng, nk, False)
         kinds = [1, 5, 2, 3]
-        vals = [bytes([0x91, rng.choice(kinds)]) + bytes(rng.getrandbits(8) for _ in range(rng.choice([1, 6, 40]))) for _ in range(12)]
+        vals = []
+        while len(vals) < 12:          # distinct values (the harness names a value by its first match)
+            x = bytes([0x91, rng.choice(kinds)]) + bytes(rng.getrandbits(8) for _ in range(rng.choice([2, 6, 40])))
+            if x not in vals:
+                vals.append(x)
         kind_of = {k: rng.choice(kinds) for k in range(nk)}
         by_kind = {kd: [i for i, x in enumerate(vals) if x[1] == kd] for kd in kinds}
         for kd in kinds:
             while len(by_kind[kd]) < 2:
-                vals.append(bytes([0x91, kd]) + bytes(rng.getrandbits(8) for _ in range(5)))
-                by_kind[kd].append(len(vals) - 1)
+                x = bytes([0x91, kd]) + bytes(rng.getrandbits(8) for _ in range(5))
+                if x not in vals:
+                    vals.append(x)
+                    by_kind[kd].append(len(vals) - 1)
         ops = []
         burst = rng.sample(range(nk), rng.randrange(26, min(nk, 40) + 1))
         for k in burst:
